@@ -582,7 +582,7 @@ func (P *Program) genVC(con *Contract) (*FuncResult, *VC) {
 		sort.Strings(keys)
 		aliveEntry := f.getCell(f.entry, "ghost:alive", aliveSort)
 		for _, k := range keys {
-			if strings.HasPrefix(k, "L:") || strings.HasPrefix(k, "V:") || k == "ghost:alive" || k == "ghost:lastCtxErrNil" || declared[k] || con.ModAll {
+			if strings.HasPrefix(k, "L:") || strings.HasPrefix(k, "V:") || k == "ghost:alive" || k == "ghost:lastCtxErrNil" || k == "ghost:recvd" || declared[k] || con.ModAll {
 				continue
 			}
 			srt := vc.cellSort[k]
